@@ -264,7 +264,7 @@ static void ev_ser(World& w, int i, int b) {
   e.raw("r", proj(s)).emit(); w.budget--;
 }
 
-static void ev_deser(World& w, int b, int j, int path = -1) {   // path: 0 bytes, 1 stream, -1 random
+static void ev_deser(World& w, int b, int j, int path = -1, bool reser = true) {   // path: 0 bytes, 1 stream, -1 random; reser: re-serialize now
   if (!w.blive[b]) return;
   clear_slot(w, j);
   bool stream = path < 0 ? w.g.chance(50) : path == 1;
@@ -278,11 +278,20 @@ static void ev_deser(World& w, int b, int j, int path = -1) {   // path: 0 bytes
     w.sk[j].reset(new cpc_sketch(cpc_sketch::deserialize(is, w.seed)));
     consumed = (long long)is.tellg();
   }
-  auto re = w.sk[j]->serialize();
   w.restored[j] = true;
   // the twin relation holds while the source of the image has not been updated since Ser
-  Ev e("Deser"); e.i("blob", b).i("dst", j).str("path", stream ? "stream" : "bytes").i("consumed", consumed)
-    .bytes("reimg", re.data(), re.size()).b("restored", true).raw("r", proj(*w.sk[j])).emit(); w.budget--;
+  Ev e("Deser"); e.i("blob", b).i("dst", j).str("path", stream ? "stream" : "bytes").i("consumed", consumed);
+  if (reser) { auto re = w.sk[j]->serialize(); e.bytes("reimg", re.data(), re.size()); }
+  e.b("restored", true).raw("r", proj(*w.sk[j])).emit(); w.budget--;
+}
+
+// serialize() of a restored object that has not been updated since Deser, as an event of its own (directed segments place it
+// AFTER the restored copy has been used as a union operand): same image, and the image is readable with the segment's seed
+static void ev_reser(World& w, int j, int b) {
+  auto re = w.sk[j]->serialize();
+  bool readable = true;
+  try { cpc_sketch t = cpc_sketch::deserialize(re.data(), re.size(), w.seed); (void)t; } catch (const std::exception&) { readable = false; }
+  Ev("Reser").i("id", j).i("blob", b).bytes("reimg", re.data(), re.size()).b("readable", readable).b("restored", true).emit(); w.budget--;
 }
 
 // side operations sprinkled between updates: Obs / Copy / Ser / Deser (+ pairing of original and restored)
@@ -605,14 +614,15 @@ static void restore_and_continue(World& w, long nupd, bool aimed) {
   const int A = 0, RB = 10, RS = 11, X = 1;      // original, restored from bytes, restored from stream, a non-empty operand
   ev_obs(w, A);
   ev_ser(w, A, 0);
-  ev_deser(w, 0, RB, 0);
+  ev_deser(w, 0, RB, 0, false);
   ev_ser(w, A, 1);                                // a second image (another header size), read through the stream path
-  ev_deser(w, 1, RS, 1);
+  ev_deser(w, 1, RS, 1, false);
   // the restored copies as union operands BEFORE any further update (with a non-empty partner of a larger lg_k)
   int lgk = w.sk[A]->get_lg_k();
   union_of(w, 0, std::min(12, lgk + 2), {RB, X}, -1, 5);
   union_of(w, 0, std::min(12, lgk + 2), {X, RS}, RS, 5);
   union_of(w, 0, std::min(12, lgk + 2), {A, X}, -1, 5);
+  ev_reser(w, RB, 0); ev_reser(w, RS, 1);
   lockstep3(w, A, RB, RS, nupd, aimed);
   // and after: original and restored give the same union result (both are checked against the contract's UnionDef)
   union_of(w, 0, lgk, {A, X}, A, 5);
@@ -666,11 +676,12 @@ static void boundary_probe(World& w, int A) {
   if (w.partner[A] >= 0) { w.partner[w.partner[A]] = -1; w.partner[A] = -1; }
   ev_obs(w, A);
   ev_ser(w, A, 0);
-  ev_deser(w, 0, RB, 0);
-  ev_deser(w, 0, RS, 1);
+  ev_deser(w, 0, RB, 0, false);
+  ev_deser(w, 0, RS, 1, false);
   union_of(w, 0, lgk, {A}, -1, 5);
   union_of(w, 1, lgk, {RB}, -1, 6);
   union_of(w, 2, std::max(4, lgk - 1), {RS}, RS, 6);
+  ev_reser(w, RB, 0);
   w.partner[A] = RB; w.partner[RB] = A;            // lock-step until the next stop
 }
 
@@ -768,10 +779,34 @@ static void union_round(World& w, int u, int ulgk, const std::vector<int>& order
       Ev("UResult").i("u", u).i("dst", dst).raw("r", proj(*w.sk[dst])).emit(); w.budget--;
     }
   };
+  // REFUSED calls leave no trace: a non-empty sketch built with ANOTHER seed (smaller / equal / larger lg_k, sparse or windowed,
+  // lvalue or rvalue) is offered to the live union - still empty, on its accumulator, on its bit matrix.  The call must throw and
+  // the union must behave afterwards exactly as if it had never been made (the model state is unchanged; the results that
+  // follow are checked against it).  The foreign sketch is an environment value, not a model object.
+  auto foreign_probe = [&]() {
+    int c = (int)w.g.below(100);
+    int lgk = c < 50 ? (int)w.g.range(4, std::max(4, ulgk - 1)) : (c < 65 ? 4 : (c < 80 ? ulgk : (int)w.g.range(ulgk, 12)));
+    long K = 1L << lgk;
+    cpc_sketch f((uint8_t)lgk, w.seed + 1 + w.g.below(1000));
+    long n = w.g.chance(50) ? (long)w.g.range(1, 3) : (long)w.g.range(K / 2, 3 * K);
+    for (long q = 0; q < n; q++) f.update((uint64_t)w.g.next());
+    bool rv = w.g.chance(35), threw = false;
+    long fc = f.get_num_coupons();
+    try { if (rv) { cpc_sketch g2(f); w.un[u]->update(std::move(g2)); } else w.un[u]->update(f); }
+    catch (const std::invalid_argument&) { threw = true; }
+    Ev("URefused").i("u", u).i("lgk", lgk).i("C", fc).b("rvalue", rv).b("threw", threw).emit(); w.budget--;
+    if (w.g.chance(70)) {
+      clear_slot(w, dst);
+      w.sk[dst].reset(new cpc_sketch(w.un[u]->get_result()));
+      Ev("UResult").i("u", u).i("dst", dst).raw("r", proj(*w.sk[dst])).emit(); w.budget--;
+    }
+  };
+  if (w.g.chance(40)) foreign_probe();                                    // into the empty union
   if (w.g.chance(45)) empty_probe(false);                                 // first: into the empty union
   for (size_t q = 0; q < order.size(); q++) {
     int i = order[q];
     if (q > 0 && w.g.chance(35)) empty_probe(false);                      // in the middle
+    if (q > 0 && w.g.chance(40)) foreign_probe();
     bool rv = w.g.chance(35);
     if (rv) {
       // rvalue update consumes a copy of the input
@@ -797,6 +832,7 @@ static void union_round(World& w, int u, int ulgk, const std::vector<int>& order
       Ev("UResult").i("u", u).i("dst", dst).raw("r", proj(*w.sk[dst])).emit(); w.budget--;
     }
   }
+  if (w.g.chance(50)) foreign_probe();
   if (w.g.chance(50)) empty_probe(true);                                  // last: the result must not change
 }
 
@@ -870,6 +906,11 @@ int main(int argc, char** argv) {
     for (int i = 0; i < NU; i++) w.un[i].reset();
     for (int i = 0; i < NB; i++) { w.blive[i] = false; w.blob[i].clear(); }
     w.seed = w.g.chance(25) ? w.g.next() % 100000 + 1 : DEFAULT_SEED;
+    {
+      char kd = kinds[seg % kinds.size()];
+      // directed segments: a NON-default seed in every second file (both reader paths, unions fed restored copies)
+      if (kd == 'e' || kd == 'x') w.seed = (seed % 2 == 1) ? 12345 + seed % 9973 : DEFAULT_SEED;
+    }
     w.budget = events;
     char kind = kinds[seg % kinds.size()];
     Ev("Begin").i("seg", seg).str("kind", std::string(1, kind)).i("seed", (long long)w.seed).emit();
